@@ -9,7 +9,7 @@ JOB_ASPECTS = {'visits', 'nomiss'}
 
 def run(tier, seed, replay=None):
     rng = vlib.Rng(seed)
-    n, maxops = (200, 80) if tier == 'quick' else (3000, 300)
+    n, maxops = (200, 80) if tier == 'quick' else (1000, 200)
     prof = mgr.profile(PROP)
     scripts = mgr.corpus(PROP) + [('g%d' % i, mgr.gen_script(rng.fork(PROP + '-%d' % i), maxops, prof)) for i in range(n)]
     return mgrcheck.run_check(PROP, scripts, ASPECTS, replay=replay, assumptions=['component payloads are modelled as one integer per instance', 'user callbacks only read what they are handed', 'extraArchetypeFilterCheck / extraChunkFilterCheck are the defaults'],
